@@ -2992,6 +2992,7 @@ class ISLaSolver:
             return self.parse(
                 str(int_model_value),
                 var_type,
+                skip_check=True,
                 silent=True,
             )
         except SyntaxError:
@@ -3049,6 +3050,7 @@ class ISLaSolver:
                 + z3_solver.model()[zeroes_padding_var].as_string()
                 + (str_model_value if int_model_value >= 0 else str(-int_model_value)),
                 var.n_type,
+                skip_check=True,
             )
 
     def extract_model_value_flexible_var(
@@ -3075,6 +3077,7 @@ class ISLaSolver:
         return self.parse(
             smt_string_val_to_string(model[z3.String(var.name)]),
             var.n_type,
+            skip_check=True,
         )
 
     @staticmethod
